@@ -37,7 +37,7 @@ ASSUMPTIONS = [
     "(the manual states that configparser's extended interpolation is what is used): generated inside [Tabulation] "
     "(nrho : ${nr}) and [Species]",
 ]
-REQUIRED = {"target_left_to_default": 4, "nested_placeholder": 20, "own_section_ref": 5, "lifted>=1": 100, "section_ref": 30, "unused_var": 60, "foreign_option_name": 40,
+REQUIRED = {"reread_after_referenced_entry_changed": 5, "target_left_to_default": 4, "nested_placeholder": 20, "own_section_ref": 5, "lifted>=1": 100, "section_ref": 30, "unused_var": 60, "foreign_option_name": 40,
             "lift:Tabulation": 10, "lift:Pair": 15, "lift:Potential-Form": 5, "lift:Table-Form": 5, "lift:Species": 5}
 NUM = re.compile(r"(?<![\w.$\{:])-?\d+(?:\.\d+)?(?:e[+-]?\d+)?(?![\w.\}])")
 VAR_NAMES = ["v1", "alpha_v", "rho", "nsteps", "A_param", "cut2"]
@@ -252,6 +252,30 @@ def check_case(case):
             pass
         except Exception as e:
             v.append(("listing:exception:%s@%s" % (type(e).__name__, libroute.innermost_atsim_frame(e)), "%r\n%s" % (e, ctx)))
+    # the same file read again, in this process, after the entries its ${SECTION:KEY} place-holders point at were
+    # edited: a place-holder stands for what the referenced entry holds NOW
+    consts = [e for n, e in withvars if n == "Constants"]
+    if consts and not v and case.get("route") not in ("cli",):
+        edits = {}
+        for k, tok in consts[0]:
+            if "." in tok and "e" not in tok.lower() and "$" not in tok:
+                edits[k] = tok + "5"
+        if edits:
+            with2 = [[n, [[k, (edits.get(k, val) if n == "Constants" else val)] for k, val in e]] for n, e in withvars]
+            hand2 = [[n, [[k, val] for k, val in e]] for n, e in with2]
+            for n, e in hand2:
+                for ent in e:
+                    for k, alt in edits.items():
+                        ent[1] = ent[1].replace("${Constants:%s}" % k, alt)
+            text2, ptext2 = anymodel.text_of(with2), anymodel.text_of(hand2)
+            want2 = anymodel.outcome(ptext2, target)
+            if want2[0] != "exception":
+                cls.append("reread_after_referenced_entry_changed")
+                got2 = anymodel.outcome(text2, target)
+                if not anymodel.same_outcome(got2, want2):
+                    v.append(("output_differs:referenced_entry_changed", "the file was read, [Constants] edited (%r) and the file read again "
+                              "in the same process: %r\nwith the [Constants] place-holders substituted by hand: %r\n"
+                              "--- file ---\n%s" % (edits, got2[:1] + (got2[1][:300],), want2[:1] + (want2[1][:300],), text2)))
     nt = ("lifted>=1" in cls and want[0] == "ok") or "foreign_option_name" in cls
     return {"v": v, "cls": cls, "nt": nt}
 
